@@ -12,9 +12,9 @@ package main
 //	P5  same T, X, args — other method and from-contract
 //	(AddSignature: S0; S1 = S0 plus a trailing byte; S2 = S0 with the last byte changed; S3 = a prefix of S0)
 //
-// For every pair (P0, Pk) an exhaustive BFS to the fixpoint over {vote of validator i for payload j, vote of an
-// outsider for payload j} (votes are idempotent, so the space is finite); thorough adds a depth-bounded BFS over the
-// whole family at once.
+// For every pair (P0, Pk) an exhaustive BFS over {vote of validator i for payload j, vote of an outsider for payload j}:
+// quick to depth 6, thorough to the fixpoint (votes are idempotent, so the space is finite); thorough adds a depth-5
+// BFS over the whole family at once and N = 5, 6.
 //
 // Oracle (the reference model tallies per FULL payload):
 //	a release for payload P happens exactly in the tx after which >= ceil(2N/3) distinct current validators have
@@ -74,7 +74,9 @@ func importFamily(mech string, src uint64, h uint32, args func(seed byte) []byte
 		{"P4-other-height", p0, h + 1, string(X)},
 		{"P5-same-tx-id-args-other-method-and-from-contract", m(X, F2, "mint", args(1)), h, string(X)},
 	}
-	f.tx = func(p payload, who *polyenv.Acct) *types.Transaction { return ccm.VoteImport(src, p.height, p.extra, who, 1) }
+	f.tx = func(p payload, who *polyenv.Acct) *types.Transaction {
+		return ccm.VoteImport(src, p.height, p.extra, who, 1)
+	}
 	f.released = func(p payload, tx *types.Transaction, res polyenv.Result, before, after polyenv.Dump) (int, bool) {
 		b := before.Map()
 		n, ok := 0, true
@@ -212,7 +214,12 @@ func payloadPhase(r *ev.Run, pool *ccm.Worlds, bases map[string]polyenv.Dump, nV
 		for k := 1; k < len(f.payloads); k++ {
 			subsets = append(subsets, []int{0, k})
 		}
-		depths := make([]int, len(subsets)) // 0 = to the fixpoint
+		depths := make([]int, len(subsets)) // thorough: 0 = to the fixpoint; quick: depth 6 (a release needs 3 votes, a second payload blocked by the done id 3 more)
+		if r.Quick() {
+			for i := range depths {
+				depths[i] = 6
+			}
+		}
 		if r.Thorough() {
 			all := []int{}
 			for k := range f.payloads {
@@ -231,7 +238,7 @@ func payloadPhase(r *ev.Run, pool *ccm.Worlds, bases map[string]polyenv.Dump, nV
 			}
 			st := mc.BFS(mc.Config[pstate]{
 				Init:    []pstate{{D: bases[f.mech], V: map[int]map[int]bool{}, Released: map[int]bool{}, Done: map[string]bool{}}},
-				Workers: 8, Stop: r.Expired, MaxDepth: depths[si],
+				Workers: 16, Stop: r.Expired, MaxDepth: depths[si],
 				Key:    func(s pstate) string { return s.key() },
 				Events: func(s pstate, d int) []string { return events },
 				Step: func(s pstate, e string) (pstate, bool) {
